@@ -15,6 +15,9 @@ from ..recipe import gen_init
 
 PID = "C17"
 _CFGS = None
+# ScratchVar with automatic / requested slot, abi.Uint64 through set()/get(), bare ScratchSlot through
+# ScratchStore/ScratchLoad
+_VARKINDS = ("auto", "reserved", "abi", "raw")
 
 
 def compile_and_classify(prog, cfg):
@@ -45,6 +48,11 @@ def check(prog, body, cfg, out, size, placement, varkind):
     cnt["oracle_states"] = cnt.get("oracle_states", 0) + nstates
     st, r, owners, b = compile_and_classify(prog, cfg)
     cnt["traces_validated"] = cnt.get("traces_validated", 0) + 1
+    if any(v.slot is None for lst in b.local_vars.values() for v in lst):
+        # an ABI value created inside a version 8+ subroutine lives in the routine's frame (zero-initialised by
+        # the prologue), not in a scratch slot: the property does not speak about it (outcome recorded only)
+        oc["frame-backed:" + st] = oc.get("frame-backed:" + st, 0) + 1
+        return
     key = ("uninit" if bad else "init") + ":" + st
     oc[key] = oc.get(key, 0) + 1
     if not bad:
@@ -78,7 +86,7 @@ def _worker(items, base):
     out = {"counters": {}, "outcomes": {}, "violations": [], "samples": []}
     for size, body in items:
         for placement in ("main", "sub"):
-            for varkind in ("auto", "reserved"):
+            for varkind in _VARKINDS:
                 prog = gen_init.make_program(body, placement, varkind)
                 for cfg in _CFGS:
                     check(prog, body, cfg, out, size, placement, varkind)
